@@ -315,6 +315,29 @@ def corr_functions(ctx, drv, rng, tie_bad):
 
 # ---- correspondence: update histories -----------------------------------------------------------------------
 
+def gen_chg(rng, dim):
+    """an in-place change of a model attribute"""
+    if dim > 1:
+        k = str(rng.choice(["anis", "anis", "angles", "len_scale", "len_scale_list", "var"]))
+    else:
+        k = str(rng.choice(["len_scale", "var"]))
+    if k == "anis":
+        v = [float(x) for x in np.exp(rng.uniform(-1.2, 1.2, dim - 1))]
+    elif k == "angles":
+        v = [float(x) for x in rng.uniform(-3, 3, n_angles(dim))]
+    elif k == "len_scale":
+        v = float(np.exp(rng.uniform(-0.5, 2)))
+    elif k == "len_scale_list":
+        v = [float(x) for x in np.exp(rng.uniform(-0.5, 2, dim))]       # sets len_scale AND anis
+    else:
+        v = float(np.exp(rng.uniform(-1, 1)))
+    return dict(attr=k, value=v)
+
+
+def apply_chg(model, chg):
+    setattr(model, "len_scale" if chg["attr"] == "len_scale_list" else chg["attr"], chg["value"])
+
+
 API_OPS = ("period_aug", "period_edit", "period_same", "period_as", "mode_no_edit", "mode_no_same", "mode_no_as")
 
 
@@ -512,7 +535,22 @@ def gen_history(rng, dim, n_ops, classes):
             if rng.random() < 0.4:
                 kw["seed"] = int(rng.integers(0, 1000))
             kw["with_model"] = bool(rng.random() < 0.5)
+            if rng.random() < 0.5:
+                # the model changed in place is passed TOGETHER with the other arguments, in one update() call
+                kw["with_model"] = True
+                kw["chg"] = gen_chg(rng, dim)
             ops.append(dict(op="update", **kw))
+            if rng.random() < 0.3:
+                # m = gen.model; <in-place edit>; gen.model = m  /  gen.update(model=m, ...): the stored copy itself comes back
+                a = dict(op="alias_model", chg=gen_chg(rng, dim), how=str(rng.choice(["setter", "update"])))
+                if a["how"] == "update":
+                    if rng.random() < 0.5:
+                        a["period"] = hexl(gen_period(rng, dim))
+                    if rng.random() < 0.5:
+                        a["mode_no"] = gen_mode_no(rng, dim, big=False)
+                    if rng.random() < 0.4:
+                        a["seed"] = int(rng.integers(0, 1000))
+                ops.append(a)
         elif u < 0.9:
             ops.append(dict(op="seed", seed=int(rng.integers(0, 1000))))
         elif u < 0.93:
@@ -595,10 +633,29 @@ def apply_op(gen, model, op, kept=None):
             if "seed" in op:
                 args["seed"] = True
                 kw["seed"] = op["seed"]
+            if op.get("chg"):
+                apply_chg(model, op["chg"])
             if op.get("with_model"):
                 args["model"] = model
                 kw["model"] = model
             gen.update(**kw)
+        elif k == "alias_model":
+            m = gen.model                       # the generator's internal copy
+            apply_chg(m, op["chg"])
+            args["model"] = m
+            args["same_obj"] = True
+            if op["how"] == "setter":
+                gen.model = m
+            else:
+                kw = dict(model=m)
+                if "period" in op:
+                    args["period"] = kw["period"] = unhex(op["period"])
+                if "mode_no" in op:
+                    args["mode_no"] = kw["mode_no"] = list(op["mode_no"])
+                if "seed" in op:
+                    args["seed"] = True
+                    kw["seed"] = op["seed"]
+                gen.update(**kw)
     except ValueError as e:
         exc = "ValueError"
     return model, args, exc
@@ -670,10 +727,18 @@ def corr_histories(ctx, drv, rng, tie_bad):
                 drv.call("f_edit_period", np.asarray(args["edit_period"], dtype=float))
             if args.get("edit_mode_no") is not None:
                 drv.call("f_edit_mode_no", iarr(args["edit_mode_no"]))
-            st = drv.call("f_update", args["model"] is not None, ("n", md), ("z", mtag), mpar, manis, bool(args["seed"]),
-                          args["period"] is not None,
-                          np.asarray(args["period"] if args["period"] is not None else [], dtype=float),
-                          args["mode_no"] is not None, iarr(args["mode_no"] if args["mode_no"] is not None else []))
+            if args.get("same_obj"):
+                # the stored copy was edited in place and handed back: extracted edit_model, then step_gen true
+                drv.call("f_edit_model", ("n", md), ("z", mtag), mpar, manis)
+                st = drv.call("f_update_same_obj", ("n", md), ("z", mtag), mpar, manis, bool(args["seed"]),
+                              args["period"] is not None,
+                              np.asarray(args["period"] if args["period"] is not None else [], dtype=float),
+                              args["mode_no"] is not None, iarr(args["mode_no"] if args["mode_no"] is not None else []))
+            else:
+                st = drv.call("f_update", args["model"] is not None, ("n", md), ("z", mtag), mpar, manis, bool(args["seed"]),
+                              args["period"] is not None,
+                              np.asarray(args["period"] if args["period"] is not None else [], dtype=float),
+                              args["mode_no"] is not None, iarr(args["mode_no"] if args["mode_no"] is not None else []))
             if st[0] != (exc is None):
                 diffs = ["outcome (model %s, implementation %s)" % ("ok" if st[0] else "error", exc or "ok")]
                 break
@@ -837,7 +902,7 @@ def probe_histories(ctx, rng):
         period = gen_period(rng, dim)
         mode_no = gen_mode_no(rng, dim, big=False)
         ops = [o for o in gen_history(rng, dim, int(rng.integers(2, 7)), ANALYTIC)
-               if o["op"] not in ("nothing", "same_model", "tiny") and o.get("period", 1) != [] and min(o.get("mode_no", [2])) >= 0
+               if o["op"] not in ("nothing", "same_model", "tiny", "alias_model") and not o.get("chg") and o.get("period", 1) != [] and min(o.get("mode_no", [2])) >= 0
                and not (o["op"] == "mode_no_edit" and o["value"] % 2)]
         tagk = "random"
         if i >= n:
@@ -873,6 +938,306 @@ def probe_histories(ctx, rng):
                           dict(case, detail=det), key="probe:history:%s:%s" % (tagk, kind))
     ctx.notes.append("cases skipped because model.spectrum was negative/non-finite: %d" % SKIPPED[0])
     ctx.notes.append("history probes: worst |f(x+p)-f(x)| / (1e-9*AMP) = %.3g" % worst_seen)
+
+
+# ---- probes: the field is a function of the PRESENT (model, period, mode_no, seed) and is period-invariant --------------
+
+def gen_present_history(rng, dim, n_ops, kind):
+    """operation sequences on one SRF(generator="Fourier") (kind "srf") or one bare Fourier generator (kind "gen"):
+    update() with every subset of {model, seed, period, mode_no} at once or the same through the attribute setters,
+    in-place model changes (communicated in the same call, later, or never), new model objects, the generator's own
+    model copy edited and handed back, calls on new / stored positions with or without a seed, structured and
+    unstructured, plus the getter- and caller-array aliasing operations"""
+    ops = []
+    for _ in range(n_ops):
+        u = rng.random()
+        if u < 0.38:
+            o = dict(op="upd", how=str(rng.choice(["update", "update", "setter"])))
+            bits = [bool(rng.random() < 0.5) for _ in range(4)]
+            if not any(bits):
+                bits[int(rng.integers(4))] = True
+            o["with_model"] = bits[0]
+            if bits[1]:
+                o["seed"] = int(rng.integers(0, 1000))
+            if bits[2]:
+                o["period"] = hexl(gen_period(rng, dim))
+            if bits[3]:
+                o["mode_no"] = gen_mode_no(rng, dim, big=False)
+            v = rng.random()
+            if v < 0.55:
+                o["chg"] = gen_chg(rng, dim)
+            elif v < 0.7:
+                o["newmodel"] = gen_model_cfg(rng, dim, ANALYTIC)
+            ops.append(o)
+        elif u < 0.58:
+            o = dict(op="call", pos=str(rng.choice(["new", "stored"])), mesh=str(rng.choice(["unstructured", "unstructured", "structured"])))
+            if rng.random() < 0.4:
+                o["seed"] = int(rng.integers(0, 1000))
+            if o["pos"] == "new":
+                o["pts"] = [hexl(rng.uniform(-2.0, 2.0, 3)) for _ in range(dim)]     # in units of the present period
+            ops.append(o)
+        elif u < 0.68:
+            a = dict(op="alias_model", chg=gen_chg(rng, dim), how=str(rng.choice(["setter", "update"])))
+            if a["how"] == "update":
+                if rng.random() < 0.4:
+                    a["period"] = hexl(gen_period(rng, dim))
+                if rng.random() < 0.4:
+                    a["mode_no"] = gen_mode_no(rng, dim, big=False)
+                if rng.random() < 0.4:
+                    a["seed"] = int(rng.integers(0, 1000))
+            ops.append(a)
+        elif u < 0.8:
+            ops.append(gen_api_op(rng, dim, allow_odd=False))
+        elif u < 0.9:
+            ops.append(gen_keep_op(rng, dim))
+        else:
+            ops.append(dict(op="chg", chg=gen_chg(rng, dim)))
+    return ops
+
+
+def run_probe_present(case):
+    """returns (worst ratio, detail).  After every step: reported period / mode counts / seed are the ones last assigned;
+    the field at the current positions (given anew AND as stored positions, for an SRF) equals that of a FRESH object built
+    from copies of the present parameters; the field is periodic along the main axes of the present model with the present
+    period."""
+    import copy
+    import gstools as gs
+    from gstools.field.generator import Fourier
+    cfg = case["model"]
+    dim = cfg["dim"]
+    kind = case["obj"]
+    user_model = make_model(cfg)
+    kept = []
+    period0 = list(unhex(case["period"]))
+    if kind == "srf":
+        srf = gs.SRF(user_model, generator="Fourier", period=period0, mode_no=case["mode_no"], seed=case["seed"])
+        gen = srf.generator
+    else:
+        srf = None
+        gen = Fourier(user_model, period=period0, mode_no=case["mode_no"], seed=case["seed"])
+    want = fill(case["mode_no"], dim)
+    want_period = np.array(fill(period0, dim), dtype=float)
+    seed_now = case["seed"]
+    cur_unit = [unhex(p) for p in case["pts"]]          # positions in units of the present period
+    cur_mesh = "unstructured"
+    worst, det = 0.0, None
+
+    def present_model():
+        return srf.model if kind == "srf" else gen.model
+
+    def positions():
+        return [u_ * want_period[d] for d, u_ in enumerate(cur_unit)]
+
+    def evaluate(obj_srf, obj_gen, model, pos, mesh, stored=False):
+        if obj_srf is not None:
+            if stored:
+                return np.asarray(obj_srf(store=False, post_process=False), dtype=float)
+            return np.asarray(obj_srf(tuple(np.array(p) for p in pos), mesh_type=mesh, store=False, post_process=False), dtype=float)
+        if mesh == "structured":
+            from gstools.tools.geometric import generate_grid
+            arr = generate_grid([np.array(p) for p in pos])
+        else:
+            arr = np.array([np.array(p) for p in pos], dtype=float)
+        return np.asarray(obj_gen(model.isometrize(arr), add_nugget=False), dtype=float).reshape(-1)
+
+    for step_no, op in enumerate([dict(op="start")] + case["ops"]):
+        k = op["op"]
+        try:
+            if k == "upd":
+                if "newmodel" in op:
+                    user_model = make_model(op["newmodel"])
+                    if kind == "srf":
+                        srf.model = user_model
+                elif "chg" in op:
+                    apply_chg(present_model() if kind == "srf" else user_model, op["chg"])
+                m_arg = srf.model if kind == "srf" else user_model
+                if op["how"] == "update":
+                    kw = {}
+                    if op["with_model"]:
+                        kw["model"] = m_arg
+                    if "seed" in op:
+                        kw["seed"] = op["seed"]
+                    if "period" in op:
+                        kw["period"] = list(unhex(op["period"]))
+                    if "mode_no" in op:
+                        kw["mode_no"] = list(op["mode_no"])
+                    gen.update(**kw)
+                else:
+                    if op["with_model"]:
+                        gen.model = m_arg
+                    if "seed" in op:
+                        gen.seed = op["seed"]
+                    if "period" in op:
+                        gen.period = list(unhex(op["period"]))
+                    if "mode_no" in op:
+                        gen.mode_no = list(op["mode_no"])
+                if "seed" in op:
+                    seed_now = op["seed"]
+                if "period" in op:
+                    want_period = np.array(fill(unhex(op["period"]), dim), dtype=float)
+                if "mode_no" in op:
+                    want = fill(op["mode_no"], dim)
+            elif k == "chg":
+                apply_chg(present_model() if kind == "srf" else user_model, op["chg"])
+            elif k == "alias_model":
+                m = gen.model
+                apply_chg(m, op["chg"])
+                if op["how"] == "setter":
+                    gen.model = m
+                else:
+                    kw = dict(model=m)
+                    if "period" in op:
+                        kw["period"] = list(unhex(op["period"]))
+                        want_period = np.array(fill(unhex(op["period"]), dim), dtype=float)
+                    if "mode_no" in op:
+                        kw["mode_no"] = list(op["mode_no"])
+                        want = fill(op["mode_no"], dim)
+                    if "seed" in op:
+                        kw["seed"] = seed_now = op["seed"]
+                    gen.update(**kw)
+            elif k == "call":
+                if op["pos"] == "new":
+                    cur_unit = [unhex(p) for p in op["pts"]]
+                    cur_mesh = op["mesh"]
+                if kind == "srf":
+                    kw = dict(store=bool(step_no % 2), post_process=False)
+                    if "seed" in op:
+                        kw["seed"] = seed_now = op["seed"]
+                    if op["pos"] == "new":
+                        srf(tuple(np.array(p) for p in positions()), mesh_type=cur_mesh, **kw)
+                    else:
+                        srf(**kw)                      # stored positions (those of the last evaluation)
+                elif "seed" in op:
+                    gen.seed = seed_now = op["seed"]
+            elif k in API_OPS or k in KEEP_OPS:
+                r = do_api_op(gen, op) if k in API_OPS else do_keep_op(gen, op, kept)
+                if r["mode_no"] is not None:
+                    want = fill(r["mode_no"], dim)
+                if r["period"] is not None:
+                    want_period = np.array(fill(r["period"], dim), dtype=float)
+        except ValueError:
+            return worst, det        # a rejected operation: post-exception states are outside the property
+        pm = present_model()
+        pos = positions()
+        # fresh object from copies of the present parameters
+        fm = copy.deepcopy(pm)
+        if kind == "srf":
+            f_srf = gs.SRF(fm, generator="Fourier", period=[float(x) for x in want_period], mode_no=list(want), seed=seed_now)
+            f_gen = f_srf.generator
+        else:
+            f_srf, f_gen = None, Fourier(fm, period=[float(x) for x in want_period], mode_no=list(want), seed=seed_now)
+        F_fresh = evaluate(f_srf, f_gen, fm, pos, cur_mesh)
+        if not np.isfinite(f_gen._spectrum_factor).all():
+            SKIPPED[0] += 1
+            continue
+        amp = amp_of(f_gen)
+        w, d_ = 0.0, None
+
+        def cmp(name, a, b):
+            nonlocal w, d_
+            r = (float(np.max(np.abs(a - b))) / (RTOL_FIELD * amp)) if a.shape == b.shape and a.size else (0.0 if a.shape == b.shape else float("inf"))
+            if not np.isfinite(r):
+                r = float("inf")
+            if r > w:
+                w, d_ = r, dict(what=name, max_abs_diff=float(np.max(np.abs(a - b))) if a.shape == b.shape else None, amp=amp,
+                                history=hexl(a.ravel()[:4]), expected=hexl(b.ravel()[:4]))
+
+        F1 = evaluate(srf, gen, pm, pos, cur_mesh)
+        cmp("field at newly given positions vs fresh object with the present parameters", F1, F_fresh)
+        if kind == "srf":
+            F2 = evaluate(srf, gen, pm, pos, cur_mesh, stored=True)
+            cmp("field on the STORED positions vs fresh object with the present parameters", F2, F_fresh)
+            F2b = evaluate(srf, gen, pm, pos, cur_mesh, stored=True)
+            cmp("second evaluation on the stored positions vs fresh object", F2b, F_fresh)
+        # periodicity along the main axes of the present model with the present period
+        axes = np.asarray(pm.main_axes(), dtype=float)
+        rotated = bool(np.any(np.asarray(np.atleast_1d(pm.angles), dtype=float) != 0))
+        if not (cur_mesh == "structured" and rotated):
+            for ax in range(dim):
+                for q in case["qs"]:
+                    if cur_mesh == "structured":
+                        moved = [p.copy() for p in pos]
+                        moved[ax] = moved[ax] + q * want_period[ax]
+                    else:
+                        sh = q * want_period[ax] * axes[ax, :]
+                        moved = [pos[d] + sh[d] for d in range(dim)]
+                    cmp("f(x + %d*period_%d*main_axis_%d) vs f(x)" % (q, ax, ax), evaluate(srf, gen, pm, moved, cur_mesh), F1)
+        if kind == "srf":
+            evaluate(srf, gen, pm, pos, cur_mesh)        # leave the current positions stored for the next operation
+        # reported settings are the assigned ones
+        if [int(x) for x in gen.mode_no] != want:
+            w, d_ = float("inf"), dict(what="mode counts", requested=want, stored=[int(x) for x in gen.mode_no])
+        if not np.array_equal(np.asarray(gen.period, dtype=float), want_period):
+            w, d_ = float("inf"), dict(what="reported period is not the assigned one", reported=hexl(gen.period), assigned=hexl(want_period))
+        if gen.seed != seed_now:
+            w, d_ = float("inf"), dict(what="reported seed is not the assigned one", reported=gen.seed, assigned=seed_now)
+        if w > worst:
+            worst, det = w, dict(d_ or {}, after_step=step_no, op=k)
+        if worst > 1.0:
+            break
+    return worst, det
+
+
+def probe_present(ctx, rng):
+    n = 2500 if ctx.tier == "thorough" else 500
+    worst_seen = 0.0
+    for i in range(n):
+        dim = int(rng.integers(1, 4))
+        kind = "srf" if rng.random() < 0.65 else "gen"
+        cfg = gen_model_cfg(rng, dim, ANALYTIC)
+        ops = gen_present_history(rng, dim, int(rng.integers(3, 8)), kind)
+        case = dict(kind="present", obj=kind, model=cfg, period=hexl(gen_period(rng, dim)), mode_no=gen_mode_no(rng, dim, big=False),
+                    seed=int(rng.integers(0, 1000)), ops=ops, pts=[hexl(rng.uniform(-2.0, 2.0, 3)) for _ in range(dim)], qs=[1, -2])
+        ctx.count(("present", kind, dim, tuple(o["op"] for o in ops)), hist=dict(op="probe:present:" + kind, dim=dim))
+        for o in ops:
+            ctx.count(None, n=0, hist=dict(present_op=o["op"] + (":" + o["how"] if "how" in o and o["op"] != "caller_edit" else "")))
+        ctx.sample(dict(kind="present", obj=kind, dim=dim, ops=[o["op"] for o in ops]), limit=10)
+        try:
+            worst, det = run_probe_present(case)
+        except Exception as e:
+            ctx.violation("probe: present-parameter history", "implementation raised %s: %s" % (type(e).__name__, e), case,
+                          key="probe:present:exception")
+            continue
+        worst_seen = max(worst_seen, worst if np.isfinite(worst) else 0.0)
+        if worst > 1.0:
+            ctx.violation("probe: field is a function of the present parameters and period-invariant (%s history)" % kind,
+                          "after %s: %s" % (det.get("op"), json.dumps(det)), dict(case, detail=det),
+                          key="probe:present:%s:%s" % (kind, "periodicity" if str(det.get("what", "")).startswith("f(x +") else "fresh"))
+    ctx.notes.append("present-parameter histories: %d, worst deviation / (1e-9*AMP) = %.3g" % (n, worst_seen))
+
+
+def run_probe_bare_edit(case):
+    from gstools.field.generator import Fourier
+    model = make_model(case["model"])
+    gen = Fourier(model, period=list(unhex(case["period"])), mode_no=case["mode_no"], seed=case["seed"])
+    gen.model.anis = case["new_anis"]               # the generator's own copy, edited through the getter; nothing assigned
+    pm = gen.model
+    pts = np.array([unhex(p) for p in case["pts"]], dtype=float)
+    base = gen(pm.isometrize(pts.copy()), add_nugget=False)
+    amp = amp_of(gen)
+    axes = np.asarray(pm.main_axes(), dtype=float)
+    worst, det = 0.0, None
+    for ax in range(1, pm.dim):
+        moved = pts + (np.asarray(gen.period, dtype=float)[ax] * axes[ax, :])[:, None]
+        f2 = gen(pm.isometrize(moved), add_nugget=False)
+        r = float(np.max(np.abs(f2 - base))) / (RTOL_FIELD * amp)
+        if r > worst:
+            worst, det = r, dict(axis=ax, max_abs_diff=float(np.max(np.abs(f2 - base))), amp=amp)
+    return worst, det
+
+
+def probe_bare_edit(ctx, rng):
+    """bare generator: gen.model.anis = x without assigning anything: the generator cannot notice"""
+    cfg = gen_model_cfg(rng, 2, ["Gaussian"], rotated=False)
+    cfg["anis"] = [1.0]
+    pts = gen_points(rng, 2, [10.0, 8.0], 5)
+    case = dict(kind="bare_edit", model=cfg, period=hexl([10.0, 8.0]), mode_no=[8, 8], seed=5, pts=[hexl(p) for p in pts], new_anis=[0.7])
+    ctx.count(("bare_edit", 2), hist=dict(op="probe:bare generator, gen.model edited in place"))
+    worst, det = run_probe_bare_edit(case)
+    if worst > 1.0:
+        ctx.violation("probe: bare Fourier generator, gen.model.anis = x (edit of the internal copy, nothing assigned)",
+                      "the generator keeps the grid of the old anisotropy while gen.model reports the new one: %s" % json.dumps(det),
+                      dict(case, detail=det), key="bare-generator:gen.model-edited-in-place-without-assignment")
 
 
 def run_probe_subtle(case):
@@ -961,7 +1326,9 @@ def run(ctx):
         t1 = time.time()
         probe_configs(ctx, C.Rng(ctx.seed, "C17/configs"))
         probe_histories(ctx, C.Rng(ctx.seed, "C17/histories"))
+        probe_present(ctx, C.Rng(ctx.seed, "C17/present"))
         probe_subtle(ctx, C.Rng(ctx.seed, "C17/subtle"))
+        probe_bare_edit(ctx, C.Rng(ctx.seed, "C17/bare"))
         t2 = time.time()
         if drv is not None:
             corr_functions(ctx, drv, C.Rng(ctx.seed, "C17/corr"), tie_bad)
@@ -983,7 +1350,7 @@ def replay(ctx, path):
     case = rec.get("case", {})
     kind = case.get("kind")
     setup_ctx(ctx)
-    fn = dict(config=run_probe_config, history_probe=run_probe_history, subtle=run_probe_subtle).get(kind)
+    fn = dict(config=run_probe_config, history_probe=run_probe_history, subtle=run_probe_subtle, present=run_probe_present, bare_edit=run_probe_bare_edit).get(kind)
     if fn is None:
         run(ctx)
         return ctx.finish()
